@@ -391,9 +391,41 @@ impl<'tcx> Dumper<'tcx> {
                         }
                     }
                 }
-                match out {
-                    Some(b) => J::Obj(vec![("ty", num(self.ty(t))), ("array_bytes", b)]),
-                    None => J::Obj(vec![("ty", num(self.ty(t))), ("other", s("indirect"))]),
+                // arrays of wider unsigned integers (little-endian target): decode the elements
+                let mut ints = None;
+                if out.is_none() {
+                    if let ty::Array(elem, len) = t.kind() {
+                        let w = match elem.kind() {
+                            ty::Uint(ty::UintTy::U16) => 2usize,
+                            ty::Uint(ty::UintTy::U32) => 4,
+                            ty::Uint(ty::UintTy::U64) | ty::Uint(ty::UintTy::Usize) => 8,
+                            _ => 0,
+                        };
+                        if let (Some(n), true) = (len.try_to_target_usize(tcx), w > 0) {
+                            if let rustc_middle::mir::interpret::GlobalAlloc::Memory(a) = tcx.global_alloc(alloc_id) {
+                                let a = a.inner();
+                                let start = offset.bytes() as usize;
+                                let end = start + (n as usize) * w;
+                                if end <= a.len() && n <= 64 {
+                                    let b = a.inspect_with_uninit_and_ptr_outside_interpreter(start..end);
+                                    let mut v = vec![];
+                                    for i in 0..(n as usize) {
+                                        let mut x: u128 = 0;
+                                        for k in 0..w {
+                                            x |= (b[i * w + k] as u128) << (8 * k);
+                                        }
+                                        v.push(num(x));
+                                    }
+                                    ints = Some(J::Arr(v));
+                                }
+                            }
+                        }
+                    }
+                }
+                match (out, ints) {
+                    (Some(b), _) => J::Obj(vec![("ty", num(self.ty(t))), ("array_bytes", b)]),
+                    (None, Some(v)) => J::Obj(vec![("ty", num(self.ty(t))), ("array_bytes", v)]),
+                    (None, None) => J::Obj(vec![("ty", num(self.ty(t))), ("other", s("indirect"))]),
                 }
             }
         }
